@@ -240,6 +240,7 @@ def register(PROPS):
                       "of an interval is excluded by hypothesis. " + " ".join(C12_ASSUME),
     }
     PROPS["C13"] = {
+        "generated_layer": True,   # addSubscriber / addSubscriberToAll / their removers / dispatch, translated on every run
         "gens": [{"id": "C13", "quick": 60000, "thorough": 1200000, "thorough_seeds": 12, "race": True}],
         "race": True,
         "compare": cmp_client,
@@ -256,6 +257,10 @@ def register(PROPS):
                       "concurrent variant runs under the Go race detector in the thorough tier (testing).",
         "assumptions": [
             "map iteration order is arbitrary: invoked callbacks are compared as sorted lists per event",
+            "in the translated registry functions (Gen/Reset.lean) a callback is a number and a call through it an entry of a log, maps are "
+            "association lists ranged over in an order that is a parameter (any), mu.Lock/RLock/Unlock are no-ops (each function is one "
+            "critical section: that they do hold mu is the lock-discipline check on the source text), a returned function literal is its "
+            "captured variables plus a definition for its body (closure conversion)",
             "race freedom is outside Lean: lock discipline is checked on the source text (every function touching the registry holds mu) "
             "and the concurrent variant runs under the Go race detector in the thorough tier — this clause is TESTING",
         ],
